@@ -274,13 +274,13 @@ def fresh_plain_run(algo, meta, rewards, np_seed):
     return None
 
 
-def c14_group(seed, idx, algo):
+def c14_group(seed, idx, algo, directed=None):
     rmode = random.Random(f"c14r-{seed}-{idx}").choice(["dyadic", "negative", "few", "alt"])
     # 1. learn the configuration with a one-round run, 2. let every one-argument variation of it run in this
     #    process, 3. only then run the case itself (lock-step with the model) and compare with a fresh interpreter:
     #    state shared between instances (class attributes, module-level caches, mutable defaults) that is keyed on
     #    only part of the configuration is then already poisoned when the real run starts
-    pre = gen_algo_case(seed, idx, algo, force={"t0": 1, "query_rounds": [], "mid_queries": [], "rmode": rmode, "max_rounds": 1})
+    pre = gen_algo_case(seed, idx, algo, force=dict({"t0": 1, "query_rounds": [], "mid_queries": [], "rmode": rmode, "max_rounds": 1}, **(directed or {})))
     if pre.trace is None:
         return [pre]
     Tsel = pre.meta["T"]
